@@ -3350,6 +3350,7 @@ RULES = [
     ("E14.wait-result-checked", "every ThreadFence::wait() in a reachable worker variant (or in a member helper that returns its result, followed to the caller) leads to `return false` on a false result before any further task/fence operation. Broken for: a job in which another worker fails (exception in a task): this worker would continue/deadlock instead of terminating.", 12),
     ("E14.failure-opens-fence", "Worker::operator(): the status starts false, is set only from the work functions, and every path to the end with a false status opens the worker's own fence with false. Broken for: a failing worker whose neighbour (layered) or master (coloured) waits on its fence: deadlock.", 5),
     ("E5.range-partition", "single / no-scatter / coloured variants: the ranges [beg(id), end(id)) of ids 1..n abut, start at the lower and end at the upper end of the index interval the variant is responsible for ([0,size) resp. the colour interval), for every enumerated worker count and symbolically (sympy, floor division); the round loop visits every colour interval. Broken for: worker counts that do not divide the cell count (cells skipped or assembled twice).", 10),
+    ("E14.shared-writes-in-scatter", "for every Task class of basic_assembly_jobs.hpp / function_integral_jobs.hpp (driver tu/c17_reduction.cpp: the four scattering jobs and the five combining tasks): the task's shared handles - members bound in a constructor initialiser to a non-const constructor parameter / job member without a copy, and members constructed from such a handle through a non-const reference (ScatterAxpy) - are written (non-const member/operator call, element assignment, passed to a non-const reference parameter; an element indexed by the number of the cell being assembled belongs to the worker that owns the cell and is exempt) only in code reachable from scatter() or combine() - the contract stated in the doxygen of DomainAssemblyJob::Task; constructor, destructor, prepare(), assemble(), finish() and the members they call on the task (CRTP static_cast included) do not write through them. Broken for: layered strategies with >= 2 workers (finish() runs after the own fence is opened), any strategy for prepare()/assemble(): concurrent updates of vertex-adjacent cells, lost updates. Not seen: a reference-to-scalar handle written by a built-in assignment.", 14),
     ("E5.reduction-operator", "equals the serial result: for every Task::combine() (driver tu/c17_reduction.cpp: the four combining jobs, scalar and blocked) the reduction call reduces the task-local object into the job's object, a task with a non-empty combine() declares need_combine, and the reduction function combines every field of the result class with the same field of the other object by the very operator the per-cell accumulation uses for that field (+= fields by +, max fields by max; static helpers followed with parameters bound); a field that is accumulated but not combined is a violation. Broken for: jobs with need_combine on >= 2 workers (vector-valued functions for the per-component fields): the value depends on the number of workers.", 33),
     ("E5.thread-layers-ends", "_build_thread_layers asserts thread_layers.front() == 0 and .back() == number of layers. Broken for: layered strategy (first/last layers not assembled).", 1),
     ("E7.join-all-exits", "assemble(): every path from the creation of the threads to a normal return passes a loop joining every thread and then clears the thread vector. Broken for: any threaded job (result used while workers still scatter; next job aborts).", 5),
@@ -3663,6 +3664,7 @@ def rule_reduction(ck, extra, tag):
     if errs:
         ck.incomplete(R, "driver tu/c17_reduction.cpp%s does not compile: %s:%s %s" % (tag, errs[0]["file"], errs[0]["line"], errs[0]["msg"]))
         return
+    rule_shared_writes(ck, facts, tag)
     by_full = {}
     for f in facts.functions:
         by_full.setdefault(f.full, f)
@@ -3815,6 +3817,180 @@ def rule_reduction(ck, extra, tag):
                   else "%s is accumulated per cell with %s (%s), but %s(): %s. The combine step of >= 2 workers then yields a value that depends on the number of workers (e.g. the sum of the per-thread maxima) instead of the serial result" % (
                       F, aop, where, g.name, "; ".join(b_[1] for b_ in bad)),
                   g.file, rops[0][2])
+
+
+# -------------------------------------------------------------------------------------------------
+# protocol phases: a task writes the job's shared containers only in scatter() / combine()
+# -------------------------------------------------------------------------------------------------
+
+UNPROTECTED = ("ctor", "dtor", "prepare", "assemble", "finish")     # run by every worker without mutual exclusion
+
+
+def rule_shared_writes(ck, facts, tag):
+    """DomainAssemblyJob::Task interface (doxygen in domain_assembler.hpp): the workers serialise only
+    scatter() (fence handshake / colours) and combine() (thread mutex).  Shared handles of a task =
+    data members bound in a constructor initialiser to a non-const lvalue (constructor parameter of
+    non-const reference type, or a member of the job parameter) without a copy being constructed, and
+    members constructed from such a handle through a non-const reference parameter (ScatterAxpy)."""
+    R = "E14.shared-writes-in-scatter"
+    by_full = {}
+    by_cls = {}
+    for f in facts.functions:
+        by_full.setdefault(f.full, f)
+        by_cls.setdefault(f.cls, []).append(f)
+    short = lambda cls: re.sub(r"FEAT::(Assembly|Tiny|LAFEM|Analytic|Space|Trafo|Geometry|Shape)::", "", cls)
+    nonconst_ref = lambda t: (t or "").rstrip().endswith("&") and not (t or "").rstrip().endswith("&&") and not (t or "").lstrip().startswith("const")
+    is_self = lambda e: strip(e or {}).get("k") == "This" or (strip(e or {}).get("k") == "Un" and strip(e)["op"] == "*" and strip(strip(e)["e"]).get("k") == "This")
+    tasks = sorted({f.cls for f in facts.functions if f.cls.endswith("::Task") and (f.name in TASK_CALLS or f.d.get("ctor"))})
+    if not tasks:
+        ck.incomplete(R, "no task classes in the fact base%s" % tag)
+        return
+    for T in tasks:
+        vt = re.search(r"LAFEM::(DenseVector(Blocked)?)<", T)
+        tname = "%s%s::Task" % (short(T).split("<")[0], "<%s>" % vt.group(1) if vt else "")
+        # class and its bases (through the base initialisers of the constructors)
+        S, todo = [], [T]
+        while todo:
+            c = todo.pop(0)
+            if c in S:
+                continue
+            S.append(c)
+            for f in by_cls.get(c, []):
+                if f.d.get("ctor"):
+                    for i in f.d.get("inits") or []:
+                        ini = strip(i.get("init") or {})
+                        if i.get("base") and ini.get("k") in ("Construct", "TempObj") and ini.get("ccls"):
+                            todo.append(ini["ccls"])
+        ctors = [f for c in S for f in by_cls.get(c, []) if f.d.get("ctor") and f.d.get("inits")]
+        if not ctors:
+            ck.incomplete(R, "%s%s: constructor with initialisers not in the fact base" % (tname, tag))
+            continue
+        # shared handles
+        handles = {}
+        for rnd in range(2):
+            for f in ctors:
+                ptype = {p_["d"]: f.type(p_["t"]) for p_ in f.params}
+                for i in f.d.get("inits") or []:
+                    m, ini = i.get("member"), strip(i.get("init") or {})
+                    if not m or m in handles or not ini:
+                        continue
+                    amp = False
+                    if ini.get("k") == "Un" and ini.get("op") == "&":
+                        ini, amp = strip(ini["e"]), True
+                    root, _path = elem_root(ini)
+                    if ini.get("k") in ("Ref", "Member") and "const " not in (f.ntype(ini) or "")[:6]:
+                        if ini.get("k") == "Ref" and ini.get("dk") == "param" and (nonconst_ref(ptype.get(ini.get("d"))) or amp):
+                            handles[m] = "bound to the constructor parameter `%s`" % ini["n"]
+                        elif ini.get("k") == "Member" and strip(ini.get("b") or {}).get("k") == "Ref" and strip(ini["b"]).get("dk") == "param" \
+                                and nonconst_ref(ptype.get(strip(ini["b"]).get("d"))):
+                            handles[m] = "bound to `%s`" % render(ini)
+                        elif ini.get("k") == "Member" and this_field(ini) in handles:
+                            handles[m] = "alias of the shared `%s`" % this_field(ini)
+                    elif ini.get("k") in ("Construct", "TempObj") and rnd == 1:
+                        for a_, t_ in zip(ini.get("a", []), ini.get("pt", [])):
+                            a_ = strip(a_)
+                            src = this_field(a_) if this_field(a_) in handles else (a_.get("n") if a_.get("k") == "Ref" and a_.get("dk") == "param" and nonconst_ref(ptype.get(a_.get("d"))) else None)
+                            if src is not None and nonconst_ref(f.type(t_)):
+                                handles[m] = "constructed from the shared `%s` through a non-const reference" % src
+        if not handles:
+            continue
+        # phase entry points
+        entries = {}
+        for ph in TASK_CALLS:
+            for c in S:
+                fs = [f for f in by_cls.get(c, []) if f.name == ph]
+                if fs:
+                    entries[ph] = fs
+                    break
+        entries["ctor"] = [f for f in ctors]
+        entries["dtor"] = [f for c in S for f in by_cls.get(c, []) if f.d.get("dtor")]
+        missing = [ph for ph in ("prepare", "assemble", "scatter", "finish") if ph not in entries]
+        if missing:
+            ck.incomplete(R, "%s%s: interface member(s) %s not instantiated by the driver" % (tname, tag, missing))
+            continue
+        writes = {h: [] for h in handles}       # handle -> [(phase, function, line, what)]
+        owned = {}
+        unfollowed = []
+
+        def cell_owned(f, idx):
+            """the element index is the number of the cell being assembled (every cell belongs to exactly
+            one worker - E5.range-partition / E5.layered-positions -, so such entries are not shared)"""
+            e = strip(idx)
+            inits = single_def_inits(f)
+            hops = 0
+            while e.get("k") == "Ref" and e.get("dk") == "local" and e.get("d") in inits and hops < 3:
+                e = strip(inits[e["d"]])
+                hops += 1
+            if e.get("k") == "MCall" and e.get("n") == "get_current_cell_index":
+                return True
+            return e.get("k") == "Ref" and e.get("dk") == "param" and f.name == "prepare"
+        for ph, starts in entries.items():
+            seen = set()
+            stack = [(f, 0) for f in starts]
+            while stack:
+                f, depth = stack.pop()
+                if f.full in seen:
+                    continue
+                seen.add(f.full)
+                fx = FX(f)
+                for n in f.nodes():
+                    if not is_call(n):
+                        # built-in assignment to an element reached through a handle (pointer / array)
+                        if n.get("k") == "Assign":
+                            root, path = elem_root(n["lhs"])
+                            if path and root is not None and this_field(root) in handles:
+                                writes[this_field(root)].append((ph, f.name, n.get("l"), "assignment to `%s`" % render(n["lhs"])[:50]))
+                        continue
+                    if n.get("k") in ("Construct", "TempObj"):
+                        continue
+                    recv = n.get("obj") if n.get("k") == "MCall" else (n["a"][0] if n.get("k") == "OpCall" and n.get("a") else None)
+                    args = n.get("a", []) if n.get("k") != "OpCall" else n.get("a", [])[1:]
+                    if recv is not None:
+                        r0 = recv
+                        while strip(r0).get("k") == "Cast" or (strip(r0).get("k") == "Cast"):
+                            r0 = strip(r0)["e"]
+                        rr = resolve_alias(fx, recv)
+                        root, _p = elem_root(rr)
+                        h = this_field(root) if root is not None else None
+                        if h in handles and not n.get("cconst"):
+                            if n.get("k") == "OpCall" and n.get("op") in ("()", "[]") and args and cell_owned(f, args[0]):
+                                owned.setdefault(h, []).append((ph, n.get("l")))        # entry of the cell this worker owns
+                            else:
+                                writes[h].append((ph, f.name, n.get("l"), "non-const call `%s`" % render(n)[:60]))
+                        # calls on the task itself (also through static_cast<Derived&>(*this)): follow
+                        base_self = strip(recv)
+                        while base_self.get("k") == "Cast":
+                            base_self = strip(base_self["e"])
+                        if is_self(base_self) or is_self(recv):
+                            g = by_full.get(n.get("cfull") or "")
+                            if g is not None and g.cls in S and depth < 4:
+                                stack.append((g, depth + 1))
+                            elif g is None and not n.get("cconst"):
+                                unfollowed.append((ph, n.get("callee", "?").rsplit("::", 1)[-1], n.get("l")))
+                    if n.get("k") in ("Call", "MCall"):
+                        for a_, t_ in zip(args, n.get("pt", [])):
+                            root, _p = elem_root(resolve_alias(fx, a_))
+                            h = this_field(root) if root is not None else None
+                            if h in handles and nonconst_ref(f.type(t_)):
+                                writes[h].append((ph, f.name, n.get("l"), "passed to the non-const reference parameter of `%s`" % (n.get("callee") or "?").rsplit("::", 1)[-1]))
+                            if is_self(a_) and nonconst_ref(f.type(t_)):
+                                unfollowed.append((ph, (n.get("callee") or "?").rsplit("::", 1)[-1], n.get("l")))
+        for h in sorted(handles):
+            key = "%s%s/%s" % (tname, tag, h)
+            bad = [w for w in writes[h] if w[0] in UNPROTECTED]
+            okw = [w for w in writes[h] if w[0] not in UNPROTECTED]
+            unf = [u for u in unfollowed if u[0] in UNPROTECTED]
+            if not bad and unf:
+                ck.incomplete(R, "%s: %s() hands the task to `%s` (line %s), which is not followed" % (key, unf[0][0], unf[0][1], unf[0][2]))
+                continue
+            ck.ob(R, key, not bad,
+                  "the shared `%s` (%s) is written in %s, which the workers run without mutual exclusion (only scatter() is serialised by the fence handshake / colours and combine() by the thread mutex): %s. With >= 2 workers two threads update entries of vertex-adjacent cells concurrently (lost updates; the result differs from the serial one)" % (
+                      h, handles[h], ", ".join(sorted({"%s()" % ("Task" if w[0] == "ctor" else "~Task" if w[0] == "dtor" else w[0]) for w in bad})),
+                      "; ".join("%s line %s: %s" % (w[1], w[2], w[3]) for w in bad[:3])) if bad
+                  else "the shared `%s` (%s) is written only in %s (%d statement(s))%s; constructor, destructor, prepare(), assemble() and finish() do not write shared entries through it" % (
+                      h, handles[h], ", ".join(sorted({w[0] + "()" for w in okw})) or "no phase", len(okw),
+                      " and at the entry of the worker's own cell (%s)" % ", ".join(sorted({o[0] + "()" for o in owned[h]})) if h in owned else ""),
+                  (by_cls.get(T) or ctors)[0].file, (bad or okw or [(0, 0, (by_cls.get(T) or ctors)[0].line)])[0][2])
 
 # -------------------------------------------------------------------------------------------------
 # layered_sorted: sorting must stay inside one layer
